@@ -31,6 +31,14 @@ def handle : List String → String
       | some (v, o') => s!"ok {o' - off} {showVal (canon t v)}"
       | none => "reject"
     | _, _, _, _ => "bad-op"
+  -- val <bo> <off> <ty> <hex> → ok <consumed> | reject      (raw validation only: descriptor indices are not checked)
+  | ["w.val", bo, off, ty, hx] =>
+    match parseBo bo, off.toNat?, parseTy ty, parseHex hx with
+    | some bo, some off, some t, some buf =>
+      match validate bo buf off t with
+      | some n => s!"ok {n}"
+      | none => "reject"
+    | _, _, _, _ => "bad-op"
   -- body <bo> <nfds|~> <tys> <hex> → ok <vals> | reject
   | ["w.body", bo, nfds, tys, hx] =>
     match parseBo bo, parseTys tys, parseHex hx with
